@@ -455,6 +455,11 @@ const c14DHCPConf = `dhcp:
     lease_duration: 86400
     icmp_timeout_msec: 0
     options: []
+  dhcpv6:
+    range_start: 2001:db8:77::100
+    lease_duration: 86400
+    ra_slaac_only: false
+    ra_allow_slaac: false
 `
 
 func TestVerifC14(t *testing.T) {
@@ -1175,6 +1180,12 @@ func c14CrashLeftovers(rep *verifkit.Report, up *sysUpstream, ls *sysListServer)
 			return
 		}
 	}
+	// ... and one DHCPv6 reservation, if the server takes it.
+	v6OK := false
+	if st, _, aerr := in.API("POST", "/control/dhcp/add_static_lease", map[string]any{"mac": "aa:bb:cd:00:06:01", "ip": "2001:db8:77::5", "hostname": "leftover6"}); ok(st, aerr) {
+		v6OK = true
+		rep.Class("crash_leftover_phase_with_a_dhcpv6_reservation")
+	}
 	ls.Set("/leftover.txt", c14FilterContent(9100, 200))
 	if st, b, aerr := in.API("POST", "/control/filtering/add_url", map[string]any{"name": "leftover", "url": ls.URL("/leftover.txt"), "whitelist": false}); !ok(st, aerr) {
 		rep.Inconcl(fmt.Sprintf("crash-leftover phase add_url: %d %v %s", st, aerr, b))
@@ -1215,12 +1226,12 @@ func c14CrashLeftovers(rep *verifkit.Report, up *sysUpstream, ls *sysListServer)
 		return fmt.Sprintf("%+v", v)
 	}
 	wantLeases, wantRules := leasesOf(in), rulesOf(in)
-	if len(wantLeases) != 3 {
-		rep.Inconcl(fmt.Sprintf("crash-leftover phase: %d static leases listed before the restart", len(wantLeases)))
+	if want := map[bool]int{true: 4, false: 3}[v6OK]; len(wantLeases) != want {
+		rep.Inconcl(fmt.Sprintf("crash-leftover phase: %d static leases listed before the restart, %d were added", len(wantLeases), want))
 
 		return
 	}
-	variants := []string{"empty", "first-half-of-a-newer-version", "garbage", "one-byte"}
+	variants := []string{"empty", "first-half-of-a-newer-version", "garbage", "one-byte", "database-holds-a-lease-the-server-refuses"}
 	for vi, variant := range variants {
 		if !in.Stop(20 * time.Second) {
 			rep.Inconcl("crash-leftover phase: the server did not stop")
@@ -1232,6 +1243,26 @@ func c14CrashLeftovers(rep *verifkit.Report, up *sysUpstream, ls *sysListServer)
 		dests = append(dests, fs...)
 		before := map[string][]byte{}
 		var made []string
+		if variant == "database-holds-a-lease-the-server-refuses" {
+			// Not a leftover of a crash but of an earlier configuration: the
+			// complete lease database holds a dynamic lease outside today's
+			// range.  The server drops that lease at the start; whatever it
+			// does to the database then, every other lease must survive, in
+			// memory and - after the next start - on disk.
+			dests = nil
+			lp := filepath.Join(in.Dir, "data", "leases.json")
+			var db struct {
+				Version int              `json:"version"`
+				Leases  []map[string]any `json:"leases"`
+			}
+			if b, rerr := os.ReadFile(lp); rerr == nil && json.Unmarshal(b, &db) == nil {
+				db.Leases = append([]map[string]any{{"expires": time.Now().Add(12 * time.Hour).UTC().Format(time.RFC3339), "ip": "10.99.0.5", "hostname": "outside", "mac": "aa:bb:cd:00:09:09", "static": false}}, db.Leases...)
+				if nb, merr := json.Marshal(db); merr == nil {
+					_ = os.WriteFile(lp+".new", nb, 0o644)
+					_ = os.Rename(lp+".new", lp)
+				}
+			}
+		}
 		for _, d := range dests {
 			cur, rerr := os.ReadFile(d)
 			if rerr != nil {
@@ -1287,6 +1318,32 @@ func c14CrashLeftovers(rep *verifkit.Report, up *sysUpstream, ls *sysListServer)
 			return
 		}
 		c14ValidateDir(rep, in.Dir, "after-restart-on-crash-leftovers")
+		if variant == "database-holds-a-lease-the-server-refuses" {
+			// What is on disk now is what the next start loads.
+			if !in.Stop(20 * time.Second) {
+				rep.Inconcl("crash-leftover phase: the server did not stop")
+
+				return
+			}
+			in3, rerr3 := sysRestart(in, opts)
+			if rerr3 != nil {
+				rep.Violate("crash-leftover:restart-failed:"+variant+":second-start", "the server did not start again: "+rerr3.Error(), nil)
+
+				return
+			}
+			in = in3
+			for w := 0; w < 200; w++ {
+				if st2, _, e2 := in.API("GET", "/control/dhcp/status", nil); e2 == nil && st2 == 200 {
+					break
+				}
+				time.Sleep(25 * time.Millisecond)
+			}
+			if got2 := leasesOf(in); strings.Join(got2, ",") != strings.Join(wantLeases, ",") {
+				rep.Violate("crash-leftover:leases-lost:"+variant+":second-start", fmt.Sprintf("two starts after the lease database held a lease the server refuses, the static leases are %v, before: %v", got2, wantLeases), nil)
+
+				return
+			}
+		}
 		if b, e := os.ReadFile(filepath.Join(in.Dir, "data", "leases.json")); e != nil || !bytes.Contains(b, []byte("leftover0")) || bytes.Contains(b, []byte("LEFTOVER-NEWER")) {
 			rep.Violate("crash-leftover:lease-file-replaced:"+variant, "after the restart the lease database on disk is not the complete old one", map[string]any{"pending_files": made, "size": len(b)})
 
